@@ -56,6 +56,7 @@ class Registry:
         self.ghost: dict[str, dict[str, str]] = {}
         self.c_contracts: dict[str, dict] = {}
         self.extern_modules: dict[str, str] = {}
+        self.ufuncs: dict[str, tuple] = {}
 
     # ---- declaration API used by sidecar files
     def contract(self, key, **kw):
@@ -74,6 +75,10 @@ class Registry:
         for st in tree.body:
             if isinstance(st, ast.FunctionDef):
                 self.specs[st.name] = st
+
+    def ufunc(self, name, argtypes, rettype):
+        """uninterpreted function usable in clauses (models a library function whose definition is not given)"""
+        self.ufuncs[name] = (list(argtypes), rettype)
 
     def invariant(self, cls, clauses):
         self.invariants.setdefault(cls, []).extend(clauses)
